@@ -6,7 +6,8 @@
 //!   gffw   (same arguments; used when source/type contain TAB or LF)  -> "W=<hex line>" only
 //!   gffset seqid|attr   -> the 256 single-byte strings pushed through the real writer
 //!   gtf    seqid source type start end score strand phase attrs  -> "W=..|R=.."
-//!   bed    n name start end nm score strand others                 -> "W=..|R=.."
+//!   bed    n name start end nm score strand others   -> "W=<hex line>|R=<view>/<owned>" (record level,
+//!                          NV.Text.BedRec, like bedfile / bedt; the older split_all reader model is retired)
 //!   bedfile n rec rec ...  multi-line BED file with mixed column counts read into ONE reused
 //!                          Record<N> and into fresh ones (rec = bed fields joined by ' ')
 //!                          -> "W=<hex file>|R=<view>/<owned>;..." (shared/c18_bedrec.rs)
@@ -22,9 +23,8 @@
 //!   gtfline <hex text>     arbitrary GTF text: read_line (one reused Line), Line::kind, as_comment /
 //!                          as_record, line_bufs(), record_bufs() -> "L=..|O=..|B=.."
 //!   gtfcom <hex text>      comment through gtf Writer::write_line -> "W=<hex line>|L=..|O=.."
-//! Implementation-only oracles:
-//!   gfffile rec rec ... / gtffile rec rec ...   multi-line files (blank lines, comments, directives
-//!                                in between) read with one reused Line and with record_bufs()
+//!   dirval / gffdv / gfffile / gtffile / gffattr : see shared/c18_files.rs (typed directive values
+//!                          re-parsed with FromStr, whole written files, attribute map views); all modelled
 //!
 //! Field encodings: byte strings hex ("_" empty); score "." or "<f32 bits>:<hex of Display text>";
 //! strand one of . + - ?; phase one of . 0 1 2; attrs "-" (none) or entries joined by ';', an
@@ -52,6 +52,8 @@ use nv::{Case, CaseWriter, Obs, Outcome, Rng, errkind, guarded, hex, unhex};
 
 #[path = "../shared/c18_bedrec.rs"]
 mod c18_bedrec;
+#[path = "../shared/c18_files.rs"]
+mod c18_files;
 
 // ---------------------------------------------------------------------------------------------
 // Case <-> values
@@ -1264,11 +1266,11 @@ fn run_bed(c: &Case, modelled: bool) -> Obs {
     let count = fresh.len();
     let (lazy, owned) = fresh.first().cloned().unwrap_or(("NoLine".into(), "NoLine".into()));
     let line = &bytes[..bytes.len() - 1];
-    let obs = if modelled {
-        format!("W={}|R={}", hex(line), lazy)
-    } else {
-        // typed other fields (kind bedt): NV.Text.BedTyped.bed_write_typed, then the record-level
-        // reader model: per-accessor view and owned conversion of every line read back
+    // record-level observation for both kinds (bed: NV.Text.Bed.bed_write, bedt:
+    // NV.Text.BedTyped.bed_write_typed; then NV.Text.BedRec): per-accessor view and owned
+    // conversion of every line read back into one reused Record<N>
+    let _ = modelled;
+    let obs = {
         let es = c18_bedrec::read_text(r.n, &bytes, true, 3, false);
         let shown: Vec<String> = es.iter().filter(|e| e.res != "0").map(|e| if e.is_record() { format!("{}/{}", e.view, e.owned) } else { e.res.clone() }).collect();
         format!("W={}|R={}", hex(line), shown.join(";"))
@@ -1300,151 +1302,7 @@ fn run_bed(c: &Case, modelled: bool) -> Obs {
 }
 
 
-// ---------------------------------------------------------------------------------------------
-// Multi-line GFF3 / GTF files read with ONE reused Line object (reader.read_line(&mut line)) and
-// with the owning iterators; every record line is compared with what was written.
-
-fn recs_of_file_case(c: &Case) -> Vec<Rec> {
-    c.args
-        .iter()
-        .map(|a| rec_of_case(&Case::new("x", "gff", a.split(' ').map(|x| x.to_string()).collect())))
-        .collect()
-}
-
-fn file_verdict(fmtname: &str, want: &[String], reused: &[(String, String)], fresh: &[String], bytes: &[u8]) -> Obs {
-    let o = Obs::ok("-", true);
-    let check_pairs = |got: &[(String, String)]| -> Option<String> {
-        if got.len() != want.len() {
-            return Some(format!("{} records read, {} written", got.len(), want.len()));
-        }
-        for (i, ((lazy, owned), w)) in got.iter().zip(want).enumerate() {
-            if &norm_canon(lazy) != w {
-                return Some(format!("record {i}: lazy want={w} got={lazy}"));
-            }
-            if &norm_canon(owned) != w {
-                return Some(format!("record {i}: owned want={w} got={owned}"));
-            }
-        }
-        None
-    };
-    let fresh_pairs: Vec<(String, String)> = fresh.iter().map(|x| (x.clone(), x.clone())).collect();
-    match (check_pairs(&fresh_pairs), check_pairs(reused)) {
-        (None, None) => o,
-        (None, Some(d)) => o.with_verdict(Err((format!("{fmtname}-reused-line-stale-fields"), format!("{d} file={}", hex(bytes))))),
-        (Some(d), _) => o.with_verdict(Err((format!("{fmtname}-file-roundtrip"), format!("{d} file={}", hex(bytes))))),
-    }
-}
-
-fn run_gfffile(c: &Case) -> Obs {
-    let rs = recs_of_file_case(c);
-    let bufs: Vec<RecordBuf> = rs.iter().map(build_gff).collect();
-    let res = guarded(AssertUnwindSafe(move || -> io::Result<(Vec<u8>, Vec<(String, String)>, Vec<String>)> {
-        let mut w = gff::io::Writer::new(Vec::new());
-        w.write_directive(&gff::DirectiveBuf::new("gff-version", Some(directive_buf::Value::String("3".into()))))?;
-        for (i, b) in bufs.iter().enumerate() {
-            w.write_record(b)?;
-            // blank lines, comments and directives between records
-            match i % 4 {
-                1 => w.get_mut().extend_from_slice(b"\n"),
-                2 => w.get_mut().extend_from_slice(b"#a comment\twith\ttabs\t1\t2\t3\t4\t5\t6\n"),
-                3 => w.get_mut().extend_from_slice(b"###\n \t \n"),
-                _ => {}
-            }
-        }
-        let bytes = w.into_inner();
-        // one reused Line
-        let mut reader = gff::io::Reader::new(&bytes[..]);
-        let mut line = gff::Line::default();
-        let mut reused = Vec::new();
-        while reader.read_line(&mut line)? != 0 {
-            if let Some(r) = line.as_record() {
-                match r {
-                    Err(e) => reused.push((format!("Err:{}", errkind(&e)), format!("Err:{}", errkind(&e)))),
-                    Ok(rec) => {
-                        let lazy = canon_feature(&rec).0;
-                        let owned = match RecordBuf::try_from_feature_record(&rec) {
-                            Ok(buf) => canon_feature(&buf).0,
-                            Err(e) => format!("Err:{}", errkind(&e)),
-                        };
-                        reused.push((lazy, owned));
-                    }
-                }
-            }
-        }
-        // owning iterator
-        let mut reader = gff::io::Reader::new(&bytes[..]);
-        let fresh: Vec<String> = reader
-            .record_bufs()
-            .map(|r| match r {
-                Ok(buf) => canon_feature(&buf).0,
-                Err(e) => format!("Err:{}", errkind(&e)),
-            })
-            .collect();
-        Ok((bytes, reused, fresh))
-    }));
-    match res {
-        Outcome::Panicked(m) => Obs::fail("-", "gff3-file-panic", m),
-        Outcome::Done(Err(e)) => Obs::fail("-", "gff3-file-io-error", errkind(&e)),
-        Outcome::Done(Ok((bytes, reused, fresh))) => {
-            let want: Vec<String> = rs.iter().map(|r| norm_canon(&canon_input(r))).collect();
-            file_verdict("gff3", &want, &reused, &fresh, &bytes)
-        }
-    }
-}
-
-fn run_gtffile(c: &Case) -> Obs {
-    let rs = recs_of_file_case(c);
-    let bufs: Vec<RecordBuf> = rs.iter().map(build_gff).collect();
-    let res = guarded(AssertUnwindSafe(move || -> io::Result<(Vec<u8>, Vec<(String, String)>, Vec<String>)> {
-        let mut w = gtf::io::Writer::new(Vec::new());
-        for (i, b) in bufs.iter().enumerate() {
-            w.write_record(b)?;
-            if i % 3 == 1 {
-                w.get_mut().extend_from_slice(b"#a comment\twith\ttabs\t1\t2\t3\t4\t5\tk \"v\";\n");
-            }
-        }
-        let bytes = w.into_inner();
-        let mut reader = gtf::io::Reader::new(&bytes[..]);
-        let mut line = gtf::Line::default();
-        let mut reused = Vec::new();
-        while reader.read_line(&mut line)? != 0 {
-            if let Some(r) = line.as_record() {
-                match r {
-                    Err(e) => reused.push((format!("Err:{}", errkind(&e)), format!("Err:{}", errkind(&e)))),
-                    Ok(rec) => {
-                        let lazy = match rec.attributes() {
-                            Ok(_) => canon_feature(&rec).0,
-                            Err(e) => format!("Err:{}", errkind(&e)),
-                        };
-                        let owned = match guarded(AssertUnwindSafe(|| RecordBuf::try_from_feature_record(&rec))) {
-                            Outcome::Done(Ok(buf)) => canon_feature(&buf).0,
-                            Outcome::Done(Err(e)) => format!("Err:{}", errkind(&e)),
-                            Outcome::Panicked(_) => "Panic".to_string(),
-                        };
-                        reused.push((lazy, owned));
-                    }
-                }
-            }
-        }
-        let mut reader = gtf::io::Reader::new(&bytes[..]);
-        let fresh: Vec<String> = reader
-            .record_bufs()
-            .map(|r| match r {
-                Ok(buf) => canon_feature(&buf).0,
-                Err(e) => format!("Err:{}", errkind(&e)),
-            })
-            .collect();
-        Ok((bytes, reused, fresh))
-    }));
-    match res {
-        Outcome::Panicked(m) => Obs::fail("-", "gtf-file-panic", m),
-        Outcome::Done(Err(e)) => Obs::fail("-", "gtf-file-io-error", errkind(&e)),
-        Outcome::Done(Ok((bytes, reused, fresh))) => {
-            let want: Vec<String> = rs.iter().map(|r| norm_canon(&canon_input(r))).collect();
-            file_verdict("gtf", &want, &reused, &fresh, &bytes)
-        }
-    }
-}
+// Multi-line GFF3 / GTF files: shared/c18_files.rs (kinds gfffile, gtffile).
 
 // ---------------------------------------------------------------------------------------------
 // Generation
@@ -1917,9 +1775,10 @@ fn generate(rng: &mut Rng, tier: &str, w: &mut CaseWriter) {
         }
     }
     for i in 0..(12 * scale) {
+        use c18_files::{DVal, Item};
         let len = rng.range(2, 7);
-        let mut args = Vec::new();
-        for _ in 0..len {
+        let mut items = vec![Item::D(b"gff-version".to_vec(), if i % 2 == 0 { DVal::S(b"3".to_vec()) } else { DVal::V(3, Some(1), Some(26)) })];
+        for j in 0..len {
             let mut r = gen_gff(rng, 0);
             if r.ty == b"CDS" && r.phase == '.' {
                 r.phase = '0';
@@ -1927,13 +1786,40 @@ fn generate(rng: &mut Rng, tier: &str, w: &mut CaseWriter) {
             if i % 3 == 0 && rng.chance(1, 2) {
                 r.attrs.clear();
             }
-            args.push(rec_args(&r).join(" "));
+            items.push(Item::R(r));
+            // blank lines, comments and directives between records
+            match rng.below(8) {
+                0 => items.push(Item::B(Vec::new())),
+                1 => items.push(Item::C(b"a comment\twith\ttabs\t1\t2\t3\t4\t5\t6".to_vec())),
+                2 => {
+                    items.push(Item::D(b"#".to_vec(), DVal::N));
+                    items.push(Item::B(b" \t ".to_vec()));
+                }
+                3 => items.push(Item::B(gen_plain(rng, 0, 3, b" \t\r\x0c"))),
+                4 => {
+                    let (k, v) = c18_files::gen_dval(rng, false);
+                    items.push(Item::D(k, v));
+                }
+                5 => items.push(Item::C(gen_plain(rng, 0, 10, b"ab >!\t=;"))),
+                _ => {}
+            }
+            if j + 1 == len && i % 4 == 3 {
+                // a FASTA section: record_bufs() stops at the directive
+                items.push(Item::D(b"FASTA".to_vec(), DVal::N));
+                if rng.chance(1, 2) {
+                    items.push(Item::R(gen_gff(rng, 0)));
+                } else {
+                    items.push(Item::B(b">seq1".to_vec()));
+                    items.push(Item::B(b"ACGT".to_vec()));
+                }
+            }
         }
-        w.push("gfffile", args);
+        w.push("gfffile", items.iter().map(c18_files::item_arg).collect());
     }
     for i in 0..(12 * scale) {
+        use c18_files::Item;
         let len = rng.range(2, 7);
-        let mut args = Vec::new();
+        let mut items = Vec::new();
         for _ in 0..len {
             let mut r = gen_gtf(rng, i % 2 == 0);
             if r.strand == '?' {
@@ -1942,9 +1828,68 @@ fn generate(rng: &mut Rng, tier: &str, w: &mut CaseWriter) {
             if rng.chance(1, 4) {
                 r.attrs.clear();
             }
-            args.push(rec_args(&r).join(" "));
+            items.push(Item::R(r));
+            match rng.below(6) {
+                0 => items.push(Item::C(b"a comment\twith\ttabs\t1\t2\t3\t4\t5\tk \"v\";".to_vec())),
+                1 => items.push(Item::C(gen_plain(rng, 0, 10, b"#ab \t\";"))),
+                _ => {}
+            }
         }
-        w.push("gtffile", args);
+        w.push("gtffile", items.iter().map(c18_files::item_arg).collect());
+    }
+    // typed directive values: FromStr on arbitrary text; typed values through writer and reader
+    {
+        let fixed: &[&str] = &[
+            "", "3", "3.1", "3.1.26", "3.1.26.4", "3.", ".3", "3..1", "+3.+1.+26", "-3", "4294967295", "4294967296", "03.001", "3.x", "3.1.x", "+", "3.+", " 3",
+            "ctg123 1 1497228", "ctg123 1", "ctg123", " ", "\t", "ctg123 0 5", "ctg123 5 0", "ctg123 x 5", "ctg123 5 x", "ctg123  1\t 2 extra", " ctg123 1 2", "a 18446744073709551615 18446744073709551616",
+            "NCBI B36", "NCBI", "NCBI  B36 x", "caf\u{e9} \u{4e2d}",
+        ];
+        for t in fixed {
+            w.push("dirval", vec![hex(t.as_bytes())]);
+        }
+        for _ in 0..(40 * scale) {
+            let t = c18_files::gen_dirval(rng);
+            w.push("dirval", vec![hex(&t)]);
+        }
+        use c18_files::DVal;
+        let fixed: Vec<(Vec<u8>, DVal)> = vec![
+            (b"gff-version".to_vec(), DVal::V(3, None, None)),
+            (b"gff-version".to_vec(), DVal::V(3, Some(1), Some(26))),
+            (b"gff-version".to_vec(), DVal::V(4294967295, Some(0), Some(4294967295))),
+            (b"gff-version".to_vec(), DVal::S(b"3.1".to_vec())),
+            (b"gff-version".to_vec(), DVal::S(b"three".to_vec())),
+            (b"sequence-region".to_vec(), DVal::R(b"ctg123".to_vec(), 1, 1497228)),
+            (b"sequence-region".to_vec(), DVal::R(b"chr 1".to_vec(), 1, 2)),
+            (b"sequence-region".to_vec(), DVal::R(Vec::new(), 1, 2)),
+            (b"sequence-region".to_vec(), DVal::R(b"c".to_vec(), 18446744073709551615, 18446744073709551615)),
+            (b"sequence-region".to_vec(), DVal::S(b"ctg123 1 1497228".to_vec())),
+            (b"genome-build".to_vec(), DVal::G(b"NCBI".to_vec(), b"B36".to_vec())),
+            (b"genome-build".to_vec(), DVal::G(b"NCBI build".to_vec(), b"B36".to_vec())),
+            (b"genome-build".to_vec(), DVal::G(b"NCBI".to_vec(), Vec::new())),
+            (b"species".to_vec(), DVal::S(b"x y".to_vec())),
+            (b"k".to_vec(), DVal::N),
+            (b"foo".to_vec(), DVal::V(3, None, None)),
+        ];
+        for (k, v) in &fixed {
+            w.push("gffdv", c18_files::dval_args(k, v));
+        }
+        for i in 0..(30 * scale) {
+            let (k, v) = c18_files::gen_dval(rng, i % 5 == 4);
+            w.push("gffdv", c18_files::dval_args(&k, &v));
+        }
+    }
+    // GFF3 attribute columns: lazy iteration, lazy get, owned map and its get
+    {
+        let fixed: &[&[u8]] = &[
+            b".", b"", b"ID=a", b"a=1;a=2", b"a=1;b=2;a=3,4", b"%61=1;a=2", b"a=1;b", b"b;a=1", b"a=1;;", b"=;=x", b"a=1,2;b=%2C", b"a==;", b"Parent=p1,p2;Dbxref=x:1,y:2;Note=n",
+        ];
+        for t in fixed {
+            w.push("gffattr", vec![hex(t)]);
+        }
+        for _ in 0..(40 * scale) {
+            let t = c18_files::gen_gffattr(rng);
+            w.push("gffattr", vec![hex(&t)]);
+        }
     }
 }
 
@@ -1984,8 +1929,11 @@ fn run(c: &Case) -> Obs {
         "gffcom" => c18_bedrec::run_gffcom(c),
         "gtfline" => c18_bedrec::run_gtfline(c),
         "gtfcom" => c18_bedrec::run_gtfcom(c),
-        "gfffile" => run_gfffile(c),
-        "gtffile" => run_gtffile(c),
+        "gfffile" => c18_files::run_gfffile(c),
+        "gtffile" => c18_files::run_gtffile(c),
+        "dirval" => c18_files::run_dirval(c),
+        "gffdv" => c18_files::run_gffdv(c),
+        "gffattr" => c18_files::run_gffattr(c),
         k => panic!("unknown kind {k}"),
     }
 }
